@@ -66,7 +66,8 @@ func build() {
 	write(filepath.Join(parent, "sibling", "leak.js"), m4)
 	write(filepath.Join(parent, "rootx.css"), m4) // shares the root's name as a prefix
 	inRoot = map[string]string{}
-	for _, f := range []string{"a.css", "b.js", "index.html", "page.html", "my file.css", "dots..css", "noext", "sub/c.css", "sub/index.html", "sub/deep/d.js", "sub/deep/e.txt", "x.css.bak", "up..js"} {
+	for _, f := range []string{"a.css", "b.js", "index.html", "page.html", "my file.css", "dots..css", "noext", "sub/c.css", "sub/index.html", "sub/deep/d.js", "sub/deep/e.txt", "x.css.bak", "up..js",
+		"lib.js/index.html", "lib.js/inner.css", "style.css/readme.txt", "sub/chart.js/index.html"} { // directories named like files
 		inRoot[f] = "ROOTFILE<" + f + ">" + tag
 		write(filepath.Join(root, filepath.FromSlash(f)), inRoot[f])
 	}
@@ -116,6 +117,9 @@ func check(s setup, u *url.URL, rec *httptest.ResponseRecorder) string {
 	}
 	ms := rootMarker.FindAllStringSubmatch(body, -1)
 	if len(ms) == 0 {
+		if s.kind == "StaticFiles" && rec.Code == 200 {
+			return fmt.Sprintf("StaticFiles answered 200 without the bytes of a file (directory listing?): %q", body)
+		}
 		return ""
 	}
 	if rec.Code != 200 && rec.Code != 206 {
@@ -150,6 +154,15 @@ func check(s setup, u *url.URL, rec *httptest.ResponseRecorder) string {
 		if !ok {
 			return fmt.Sprintf("StaticFiles(%q) served %q for request %q which does not end in an allowed extension", s.exts, f, norm)
 		}
+		okFile := false
+		for _, e := range strings.Split(s.exts, "|") {
+			if strings.HasSuffix(f, "."+e) {
+				okFile = true
+			}
+		}
+		if !okFile {
+			return fmt.Sprintf("StaticFiles(%q) served the bytes of %q, a file without an allowed extension (request %q)", s.exts, f, used)
+		}
 	}
 	// which path does the file server see? StaticDir/StaticFS: URL.Path minus prefix; StaticFiles: the matched tail
 	rel := strings.TrimPrefix(u.Path, s.prefix)
@@ -169,7 +182,7 @@ func check(s setup, u *url.URL, rec *httptest.ResponseRecorder) string {
 
 var segGen = rapid.OneOf(
 	rapid.SampledFrom([]string{"..", "..", ".", "", "%2e%2e", "%2E%2E", "%2f", "%5c", "\\", "..\\", "\x00", "...", "a.css", "b.js", "sub", "deep", "c.css", "d.js",
-		"index.html", "my file.css", "my%20file.css", "dots..css", "a.css.", "a.css/", "secret.txt", "sibling", "leak.js", "root", "parent", "rootx.css", "noext", "e.txt", "x.css.bak", "up..js", "..css", "..%2f..%2fsecret.txt%00.css"}),
+		"index.html", "my file.css", "my%20file.css", "dots..css", "a.css.", "a.css/", "lib.js", "lib.js/", "style.css", "chart.js/", "inner.css", "secret.txt", "sibling", "leak.js", "root", "parent", "rootx.css", "noext", "e.txt", "x.css.bak", "up..js", "..css", "..%2f..%2fsecret.txt%00.css"}),
 	rapid.StringMatching(`[a-c./\\%]{1,4}`),
 )
 
